@@ -950,6 +950,10 @@ class Check:
     def describe(self, plan):
         return f"{plan['subject']}: " + ", ".join(op[0] + (f"({op[1]})" if len(op) > 1 else "") for op in plan["ops"])
 
+    def vacuity(self, acc):
+        st = acc.get("steps", {})
+        return [f"vacuous run: no {s} operation was executed and observed" for s in SUBJECTS if not st.get(s)] if acc.get("histories") else []
+
     # evidence ------------------------------------------------------------------------
     def evidence(self, acc, tier):
         hist = acc.get("histories", {})
